@@ -123,6 +123,44 @@ def run_property(prop_id: str, tier: str, seed: int, repo_root: str = "/repo",
     return rc
 
 
+def run_engine_a(prop_id: str, tier: str, seed: int, repo_root: str = "/repo", relock: bool = False,
+                 jobs: int | None = None, controls_attr: str = "CONTROLS_A"):
+    """For a `run_custom` property module that ALSO has Engine-A targets: `mod.build(reg)` returns their
+    plan; they are verified exactly like in run_property (same lock, native replay `mod.REPLAY`, exit
+    codes), but the evidence is returned instead of being written, so that the module can merge it into
+    its own evidence file (e.g. under coverage["engine_a"]).  Returns (exit code, evidence dict)."""
+    t0 = time.time()
+    sys.path.insert(0, VERIF)
+    mod, reg, plan = _make_registry(prop_id, repo_root)
+    work = [(prop_id, "fn", k, tier, repo_root) for k in plan["targets"]]
+    work += [(prop_id, "lemma", k, tier, repo_root) for k, _ in plan.get("lemmas", [])]
+    n = jobs or min(16, max(1, len(work)))
+    if n > 1:
+        with mp.get_context("fork").Pool(n) as pool:
+            reports = pool.map(_worker, work, chunksize=1)
+    else:
+        reports = [_worker(w) for w in work]
+    controls = None
+    if tier == "thorough" and not os.environ.get("PYVC_NO_EVIDENCE") and getattr(mod, controls_attr, None):
+        saved = os.environ.get("PYVC_ENGINE_A_ONLY")
+        os.environ["PYVC_ENGINE_A_ONLY"] = "1"        # the controls re-run only the Engine-A part
+        try:
+            controls = run_controls(prop_id, getattr(mod, controls_attr), repo_root)
+        finally:
+            if saved is None:
+                os.environ.pop("PYVC_ENGINE_A_ONLY", None)
+            else:
+                os.environ["PYVC_ENGINE_A_ONLY"] = saved
+        plan["controls"] = controls
+    plan["_no_evidence_file"] = True
+    rc = finish(prop_id, tier, seed, mod, plan, reports, t0, relock, repo_root)
+    if controls and rc == 0 and any(c["verdict"] == "passed" for c in controls):
+        missed = [c["name"] for c in controls if c["verdict"] == "passed"]
+        print(f"CHECKER-CRASH: negative control(s) not detected: {missed}", file=sys.stderr)
+        rc = 3
+    return rc, plan.get("_evidence")
+
+
 def run_controls(prop_id, controls, repo_root):
     """Negative controls (thorough tier): each is a small source mutation that breaks the property;
     it is applied to a scratch copy outside /repo and /verif and the quick check must NOT pass on it
@@ -261,6 +299,8 @@ def finish(prop_id, tier, seed, mod, plan, reports, t0, relock, repo_root):
                 continue
             it = groups[n]
             bad = [i for i in it if i["status"] == "unknown"][0]
+            if isinstance(bad.get("native_replay"), dict):
+                continue                 # its producer already searched natively and found no failing input
             rep = next(r for r in reports if any(o is bad for o in r["obligations"]))
             path = os.path.join(VERIF, "replays", prop_id + "__" + re.sub(r"[^A-Za-z0-9_.#-]+", "_", n) + ".json")
             rec = {"property": prop_id, "obligation": n, "kind": bad["kind"], "backend": bad["backend"],
@@ -340,7 +380,8 @@ def finish(prop_id, tier, seed, mod, plan, reports, t0, relock, repo_root):
         cov["negative_controls"] = plan["controls"]
     for k, v in (plan.get("coverage_extra") or {}).items():      # measured extras of extra_checks (never overrides)
         cov.setdefault(k, v)
-    if not os.environ.get("PYVC_NO_EVIDENCE"):
+    plan["_evidence"] = ev                # for run_engine_a (properties that merge it into their own file)
+    if not os.environ.get("PYVC_NO_EVIDENCE") and not plan.get("_no_evidence_file"):
         evdir = os.environ.get("PYVC_EVIDENCE_DIR", os.path.join(VERIF, "evidence"))
         os.makedirs(evdir, exist_ok=True)
         with open(os.path.join(evdir, f"{prop_id}.json"), "w") as f:
@@ -356,7 +397,9 @@ def finish(prop_id, tier, seed, mod, plan, reports, t0, relock, repo_root):
     for e in errors:
         print(f"UNDECIDED {e.get('target')}: {e.get('error')}")
     for n in undecided:
-        print(f"UNDECIDED obligation {n}: solver returned unknown")
+        own = [i.get("note") for i in groups[n] if i["status"] == "unknown" and i.get("note")
+               and not str(i.get("backend", "z3")).startswith(("z3", "cvc5"))]
+        print(f"UNDECIDED obligation {n}: " + (str(own[0])[:300] if own else "solver returned unknown"))
     for n in missing:
         print(f"UNDECIDED locked obligation no longer generated: {n}")
     for n, path, reproduced in violations:
